@@ -278,8 +278,8 @@ def main(argv=None):
     if broken:
         print("ANALYSIS-BROKEN property=%s: %s" % (pid, broken))
         rc = 2
-    elif new_viol:
-        rc = 1
+    if new_viol:
+        rc = 1          # a rule instance that was judged and failed is a verdict even if a later rule could not run
     for s in stale:
         if not broken:
             print("NOTE: known finding no longer reported (fixed? move to a fixed: line): %s" % s)
@@ -327,7 +327,7 @@ def main(argv=None):
     with open(evfile, "w") as f:
         json.dump(ev, f, indent=1, sort_keys=True)
     print("%s: %s tier=%s obligations=%d violations=%d known=%d wall=%.1fs" %
-          (pid, {0: "PASS", 1: "FAIL", 2: "BROKEN"}[rc], tier, len(rep.obligations), len(new_viol),
+          (pid, ("FAIL+BROKEN" if (rc == 1 and broken) else {0: "PASS", 1: "FAIL", 2: "BROKEN"}[rc]), tier, len(rep.obligations), len(new_viol),
            len(known_hit), time.time() - t0))
     if explain:
         try:
